@@ -53,7 +53,7 @@ def part_token(ctx):
     rng = random.Random(ctx.seed + 6)
     base = cooc_cfg.quick_cfgs()[::3] + [c for c in cooc_cfg.wide_cfgs(3, ctx.seed + 9, 60) if not any(w["table"] for w in c["wins"])]
     cfgs = cooc_cfg.with_variable(base, rng)[: ctx.pick(16, 60)]
-    items = cooc_gen.emit(ctx, 3, ctx.pick(4, 5), ctx.pick(1, 2), cfgs, "Cooc variable radii V=3",
+    items = cooc_gen.emit_shapes(ctx, 3, ctx.pick([(4, 1)], [(5, 1), (3, 2)]), cfgs, "Cooc variable radii V=3",
                           invariants=cooc_gen.INVS + ["VariableRadiiWellFormed"])
     if ctx.quick and len(items) > 4000:
         ctx.exhaustive = False
@@ -66,7 +66,7 @@ def part_token(ctx):
 def part_timed(ctx):
     cfgs = cooc_cfg.timed_cfgs(2, ctx.seed + 7, ctx.pick(16, 40))
     from .. import tlc
-    items = cooc_gen.emit(ctx, 2, ctx.pick(3, 4), ctx.pick(1, 2), cfgs, "Cooc timed V=2 gaps {0,1,2}",
+    items = cooc_gen.emit_shapes(ctx, 2, ctx.pick([(3, 1)], [(4, 1), (2, 2)]), cfgs, "Cooc timed V=2 gaps {0,1,2}",
                           extra_constants=dict(TIMED=True, Gaps=tlc.TLAExpr("{0,1,2}")))
     for it in items:
         it["shifts"] = [0, 1 << 24, 1600000000]
@@ -77,9 +77,11 @@ def part_timed(ctx):
 
 def part_multi(ctx):
     cfgs = cooc_cfg.multi_cfgs(2, ctx.seed + 9, ctx.pick(24, 60))
-    items = cooc_gen.emit(ctx, 2, 1, 1, cfgs, "CoocMulti V=2", module="CoocMulti",
-                          invariants=["Refines", "DegeneratesToToken", "WindowMassOne"],
-                          extra_constants=dict(MaxSet=2, MaxSets=ctx.pick(3, 3), MaxDocs=ctx.pick(1, 2)))
+    items = []
+    for msets, mdocs in ctx.pick([(3, 1)], [(3, 1), (2, 2)]):
+        items += cooc_gen.emit(ctx, 2, 1, 1, cfgs, "CoocMulti V=2 [sets<=%d docs<=%d]" % (msets, mdocs), module="CoocMulti",
+                               invariants=["Refines", "DegeneratesToToken", "WindowMassOne"],
+                               extra_constants=dict(MaxSet=2, MaxSets=msets, MaxDocs=mdocs))
     for it in items:
         it.pop("MaxLen", None)
     ctx.log("multi instances:", len(items))
@@ -91,9 +93,9 @@ def part_ngram(ctx):
     cfgs = [c for c in cooc_cfg.quick_cfgs() if c["wins"][0]["r"] == 2][:: ctx.pick(2, 1)]
     cfgs += [c for c in cooc_cfg.wide_cfgs(2, ctx.seed + 13, 60) if not any(w["table"] for w in c["wins"])][: ctx.pick(10, 30)]
     for n in ctx.pick([2], [2, 3]):
-        items = cooc_gen.emit(ctx, 2, ctx.pick(4, 5), ctx.pick(1, 2), cfgs, "CoocNgram V=2 N=%d" % n, module="CoocNgram",
+        items = cooc_gen.emit(ctx, 2, ctx.pick(4, 5), 1, cfgs, "CoocNgram V=2 N=%d" % n, module="CoocNgram",
                               invariants=["Refines", "WindowMassOne"],
-                              extra_constants=dict(N=n, MaxLen=ctx.pick(4, 5), MaxDocs=ctx.pick(1, 2)))
+                              extra_constants=dict(N=n, MaxLen=ctx.pick(4, 5), MaxDocs=1))
         for it in items:
             it["N"] = n
         # every fit of this class re-compiles its kernel (a fresh tuple converter per instance): ~1 s each
